@@ -27,7 +27,8 @@ func runDynamic(env *Env, rel, name, src string) frame.Result {
 		return res
 	}
 	res.OK = m[2] == "0"
-	res.Detail = fmt.Sprintf("dynamic (not a proof): %s random evaluations on the real code, %s violations%s", m[1], m[2], truncate(m[3], 600))
+	res.ReplayPkg, res.ReplaySrc = rel, src
+	res.Detail = fmt.Sprintf("dynamic (not a proof): %s evaluations on the real code, %s violations%s", m[1], m[2], truncate(m[3], 600))
 	return res
 }
 
@@ -191,4 +192,132 @@ func sortStrings(s []string) {
 			s[j], s[j-1] = s[j-1], s[j]
 		}
 	}
+}
+
+// boundedC14Filter: bounded stand-in (never counted as proved) for the one part of
+// GetApparmorLogs that the contracts leave open: which lines its filter expression
+// matches. The expression is a regexp assembled from the filter argument; the stand-in
+// runs the real function on every line of a small record grammar (stated in `rule`) and
+// compares with the property: a record is reported iff its status is ALLOWED, DENIED or
+// AUDIT and, when a filter is given, its profile or label starts with the filter.
+func boundedC14Filter(env *Env) frame.Result {
+	src := `package logs
+
+import (
+	"fmt"
+	"strings"
+	"testing"
+)
+
+func TestVerifDynamic(t *testing.T) {
+	prefixes := []string{"", "type=AVC msg=audit(1690000000.123:42): ", "Oct  1 10:00:00 host kernel: [ 12.345] audit: type=1400 audit(1690000000.123:42): "}
+	statuses := []string{"DENIED", "ALLOWED", "AUDIT", "STATUS", "HINT", "denied"}
+	keys := []string{"profile", "label", "name", "comm"}
+	evals, viol := 0, 0
+	first := ""
+	for _, filter := range []string{"", "foo"} {
+		values := []string{"foo", "foo//sub", "xfoo", "other"}
+		for _, pre := range prefixes {
+			for _, st := range statuses {
+				for _, key := range keys {
+					for _, v := range values {
+						line := pre + "apparmor=\"" + st + "\" operation=\"open\" class=\"file\" " + key + "=\"" + v + "\" pid=1 requested_mask=\"r\" denied_mask=\"r\" fsuid=0 ouid=0"
+						want := st == "DENIED" || st == "ALLOWED" || st == "AUDIT"
+						if filter != "" {
+							want = want && (key == "profile" || key == "label") && strings.HasPrefix(v, filter)
+						}
+						got := len(GetApparmorLogs(strings.NewReader(line+"\n"), filter)) == 1
+						evals++
+						if got != want {
+							viol++
+							if first == "" {
+								first = fmt.Sprintf(" filter=%q line=%q reported=%v want=%v", filter, line, got, want)
+							}
+						}
+					}
+				}
+			}
+		}
+	}
+	fmt.Printf("VERIF_DYNAMIC evaluations=%d violations=%d%s\n", evals, viol, first)
+}
+`
+	r := runDynamic(env, "pkg/logs", "C14/GetApparmorLogs-filter-grammar", src)
+	r.Name = "bounded/C14/GetApparmorLogs-filter-grammar"
+	r.Kind, r.Backend = "bounded", "go test, exhaustive over the stated record grammar"
+	r.Detail = strings.Replace(r.Detail, "dynamic (not a proof)", "bounded stand-in (not a proof; grammar: 2 filters x 3 line prefixes x 6 statuses x 4 keys x 4 values)", 1)
+	return r
+}
+
+// boundedC07Exec: bounded stand-in (never counted as proved) for Exec.Apply, whose body
+// (file reading, Parse, Resolve, templates) is outside the subset: the real directive.Run is
+// run on '#aa:exec [T] child' for every transition T of the documented domain
+// {none, P, U, p, u, PU, pu} (exhaustive in T) against a two-executable profile written to
+// a temporary directory; each executable must get exactly one rule, with access Tx (Px when
+// no transition is given), and the directive must be consumed.
+func boundedC07Exec(env *Env) frame.Result {
+	src := `package directive
+
+import (
+	"fmt"
+	"os"
+	"path/filepath"
+	"strings"
+	"testing"
+
+	"github.com/roddhjav/apparmor.d/pkg/paths"
+	"github.com/roddhjav/apparmor.d/pkg/prebuild"
+)
+
+func TestVerifDynamic(t *testing.T) {
+	dir := t.TempDir()
+	os.WriteFile(filepath.Join(dir, "child"), []byte("abi <abi/4.0>,\n\n@{exec_path} = /usr/bin/child /usr/lib/child\nprofile child @{exec_path} {\n}\n"), 0o644)
+	saved := prebuild.RootApparmord
+	defer func() { prebuild.RootApparmord = saved }()
+	prebuild.RootApparmord = paths.New(dir)
+	evals, viol := 0, 0
+	first := ""
+	bad := func(s string) {
+		viol++
+		if first == "" {
+			first = " " + s
+		}
+	}
+	for _, tr := range []string{"", "P", "U", "p", "u", "PU", "pu"} {
+		directive, access := "  #aa:exec child", "Px"
+		if tr != "" {
+			directive, access = "  #aa:exec "+tr+" child", tr+"x"
+		}
+		evals++
+		got, err := Run(paths.New("demo"), directive)
+		if err != nil {
+			bad(fmt.Sprintf("%q: error %v", directive, err))
+			continue
+		}
+		if strings.Contains(got, Keyword) {
+			bad(fmt.Sprintf("%q: directive not consumed: %q", directive, got))
+			continue
+		}
+		seen := map[string]int{}
+		ok := true
+		for _, line := range strings.Split(strings.TrimSpace(got), "\n") {
+			f := strings.Fields(line)
+			if len(f) != 2 || f[1] != access+"," {
+				ok = false
+				break
+			}
+			seen[f[0]]++
+		}
+		if !ok || len(seen) != 2 || seen["/usr/bin/child"] != 1 || seen["/usr/lib/child"] != 1 {
+			bad(fmt.Sprintf("%q expanded to %q, want one '%s,' rule for each of /usr/bin/child and /usr/lib/child", directive, got, access))
+		}
+	}
+	fmt.Printf("VERIF_DYNAMIC evaluations=%d violations=%d%s\n", evals, viol, first)
+}
+`
+	r := runDynamic(env, "pkg/prebuild/directive", "C07/exec-directive-transitions", src)
+	r.Name = "bounded/C07/exec-directive-transitions"
+	r.Kind, r.Backend = "bounded", "go test, exhaustive over the seven documented transitions"
+	r.Detail = strings.Replace(r.Detail, "dynamic (not a proof)", "bounded stand-in (not a proof; all 7 transitions x one two-executable profile)", 1)
+	return r
 }
